@@ -33,6 +33,8 @@ struct Fmt {
     cost_gbp: String,
     hold_k: i64,
     hold_avg_gbp: String,
+    hold2_k: i64,
+    hold2_avg_gbp: String,
     unit_k: i64,
     s104_unit_gbp: String,
 }
@@ -260,7 +262,9 @@ fn main() {
         let report = TaxReport {
             tax_years: years.clone(),
             // one holding per value of the batch (H00, H01, ...): 8 shares whose total cost is hold_k
-            holdings: batch.iter().enumerate().map(|(i, v)| Section104Holding { ticker: format!("H{i:02}"), quantity: Decimal::from(8), total_cost: milli(v.hold_k) }).collect(),
+            // ... and a second one (J00, J01, ...): 300 shares, a non-terminating average just below a half-penny midpoint
+            holdings: batch.iter().enumerate().map(|(i, v)| Section104Holding { ticker: format!("H{i:02}"), quantity: Decimal::from(8), total_cost: milli(v.hold_k) })
+                .chain(batch.iter().enumerate().map(|(i, v)| Section104Holding { ticker: format!("J{i:02}"), quantity: Decimal::from(300), total_cost: milli(v.hold2_k) })).collect(),
             transactions: vec![],
         };
         let desc = |v: &Fmt| format!("value {} (thousandths of a pound); expected pence {} i.e. {}", v.k, v.pence, pound(&v.gbp));
@@ -339,6 +343,9 @@ fn main() {
                 let val = |t: &str| Decimal::from_str(&t.replace(['£', ','], "")).ok();
                 let got = money_tokens(line).first().and_then(|t| val(t));
                 if got.is_none() || got != val(&pound(&v.hold_avg_gbp)) { bad.push(format!("text holdings line {line:?}, expected an average cost of {}", pound(&v.hold_avg_gbp))); }
+                let line = plain_text.lines().find(|l| l.starts_with(&format!("J{i:02}: 300 units at "))).unwrap_or("");
+                let got = money_tokens(line).first().and_then(|t| val(t));
+                if got.is_none() || got != val(&pound(&v.hold2_avg_gbp)) { bad.push(format!("text holdings line {line:?}, expected an average cost of {} ({} thousandths over 300 shares)", pound(&v.hold2_avg_gbp), v.hold2_k)); }
             }
             let want_result = format!("Result: {}", pound(&v.gbp));
             let head = format!("{} AAA on 01/06/{} - {} {}", 4, y.period.start_year(), if v.k >= 0 { "GAIN" } else { "LOSS" }, pound(&v.gbp_abs));
@@ -416,6 +423,10 @@ fn main() {
                 let h = runs.iter().position(|r| *r == "Holdings").map(|p| runs[p..].to_vec()).unwrap_or_default();
                 let row = h.iter().position(|r| *r == tick).map(|p| h[p..].iter().take(3).copied().collect::<Vec<_>>()).unwrap_or_default();
                 let want = [tick.as_str(), "8", &pound(&v.hold_avg_gbp)];
+                if row != want { bad.push(format!("PDF holdings row {:?}, expected {:?}", row, want)); }
+                let tick = format!("J{i:02}");
+                let row = h.iter().position(|r| *r == tick).map(|p| h[p..].iter().take(3).copied().collect::<Vec<_>>()).unwrap_or_default();
+                let want = [tick.as_str(), "300", &pound(&v.hold2_avg_gbp)];
                 if row != want { bad.push(format!("PDF holdings row {:?}, expected {:?}", row, want)); }
             }
             if !bad.is_empty() {
